@@ -46,6 +46,7 @@ class Run:
             self.changed.append(True)
             self.app_requests[a["app"]] = [r for r in scenario["requests"] if r["app"] == a["app"]]
             self.next_req.setdefault(a["app"], 0)
+        self.wait_regs: Dict[int, dict] = {}
         self.stopped: set = set()
         self.stops = 0
         self.final_arrays: Dict[int, dict] = {}
@@ -142,6 +143,10 @@ class Run:
                 if ev is None:
                     continue
                 if ev[0] == "wait":
+                    # what a wait instruction waits for is fixed when the wait starts: registers of its operand are read then
+                    # (other subroutines of the application may change them while this one is suspended)
+                    if i not in self.wait_regs:
+                        self.wait_regs[i] = dict(self.ex.registers_snapshot(app))
                     self.state[i] = "blocked"
                     return
                 if ev[0] == "step":
@@ -269,7 +274,13 @@ class Run:
         ex = self.ex
         arrs = ex._app_arrays[app]._arrays
 
+        at_start = self.wait_regs.pop(i, None)
+
         def regval(r):
+            if isinstance(r, int):
+                return r
+            if at_start is not None and str(r) in at_start:
+                return at_start[str(r)]
             return ex._get_register(app, r)
         if ins.mnemonic in ("wait_all", "wait_any"):
             sl = ins.slice
